@@ -129,8 +129,11 @@ def h_unknown_runs(env):
     import copy
 
     dup = copy.deepcopy(m)
-    dup.parse(sym.wire(gen_unknown(env, "later", known)))
+    later = gen_unknown(env, "later", known)
+    dup.parse(sym.wire(later))
     env.check("unknown-fields-not-shared-with-a-deep-copy", bytes(m) == out)
+    # decoding into an instance that already holds unknown fields adds to them (parse(a) then parse(b) keeps what parse(a + b) keeps)
+    env.check("unknown-fields-accumulate-across-decodes-into-one-instance", bytes(dup) == out + later)
 
 
 def h_relay(env):
